@@ -229,6 +229,9 @@ def coq_build(targets=None, timeout=3000):
         return rc == 0, out
 
 
+TIMEOUTS = {"n": 0}
+
+
 def run_coq_cases(pid, header, case_terms, check_fn, shard=150, timeout=900):
     """case_terms: list of (case_id:int, coq_term:str).  Evaluates `check_fn term` for each case inside Coq
     with vm_compute; returns (set of failing ids, log)."""
@@ -255,6 +258,38 @@ def run_coq_cases(pid, header, case_terms, check_fn, shard=150, timeout=900):
     rc, out = sh("cat %s | xargs -P %d -I{} sh -c 'ulimit -s unlimited 2>/dev/null; timeout %d coqc -Q %s/theories TN {} > {}.out 2>&1 || echo FAIL {}'" %
                  (listing, NPROC, timeout, COQ), timeout=timeout * 4)
     failing = set(); log = out; total = 0
+    TIMEOUTS["n"] = 0
+    # a shard killed by the time limit (no output at all: one pathological exact evaluation, or a loaded machine) is not a
+    # disagreement: it is bisected, and a single case that still does not finish is left unevaluated and counted
+    pending = [(fn, part) for fn, part in zip(files, parts)]
+    files = []
+    gen = 0
+    while pending:
+        nxt = []
+        for fn, part in pending:
+            o = open(fn + ".out").read() if os.path.exists(fn + ".out") else ""
+            if o.strip() == "" and len(part) > 1:
+                h = len(part) // 2
+                for half in (part[:h], part[h:]):
+                    gen += 1
+                    f2 = os.path.join(d, "cases_%s_b%d.v" % (pid, gen))
+                    with open(f2, "w") as f:
+                        f.write(header + "\n")
+                        f.write("Definition cases := [\n" + ";\n".join("(%d%%nat, %s)" % (i, t) for i, t in half) + "].\n")
+                        f.write("Definition failing := map fst (filter (fun c => negb (%s (snd c))) cases).\n" % check_fn)
+                        f.write("Eval vm_compute in (length cases, failing).\n")
+                    nxt.append((f2, half))
+            elif o.strip() == "":
+                TIMEOUTS["n"] += 1
+                log += "\nTIME LIMIT: case %d left unevaluated (%s)\n" % (part[0][0], fn)
+            else:
+                files.append(fn)
+        if nxt:
+            listing2 = os.path.join(d, "files_b%d.txt" % gen)
+            open(listing2, "w").write("\n".join(f for f, _ in nxt) + "\n")
+            sh("cat %s | xargs -P %d -I{} sh -c 'ulimit -s unlimited 2>/dev/null; timeout %d coqc -Q %s/theories TN {} > {}.out 2>&1 || echo FAIL {}'" %
+               (listing2, NPROC, timeout, COQ), timeout=timeout * 4)
+        pending = nxt
     for fn in files:
         o = open(fn + ".out").read() if os.path.exists(fn + ".out") else "missing output"
         o2 = o.replace("%nat", "")
